@@ -229,6 +229,41 @@ def encode : Msg → Bytes
   | .unknown _ p => p
   | .opaque _ => []
 
+
+/-! ## Well-formed messages (field ranges of the Go types; what `Serialization` can emit and `Deserialization` returns) -/
+
+def PeerAddr.wf (a : PeerAddr) : Prop :=
+  a.time < 2 ^ 64 ∧ a.services < 2 ^ 64 ∧ a.ip.length = 16 ∧ a.port < 2 ^ 16 ∧ a.cport < 2 ^ 16 ∧
+  ∃ v, v < 2 ^ 64 ∧ a.id = pseudoPeerId v          -- ids travel as uint64: only pseudo ids survive
+
+def VersionP.wf (p : VersionP) : Prop :=
+  p.version < 2 ^ 32 ∧ p.services < 2 ^ 64 ∧ p.timestamp < 2 ^ 64 ∧ p.syncPort < 2 ^ 16 ∧ p.httpInfoPort < 2 ^ 16 ∧
+  p.consPort < 2 ^ 16 ∧ p.cap.length = 32 ∧ p.nonce < 2 ^ 64 ∧ p.startHeight < 2 ^ 64 ∧ p.relay < 2 ^ 8
+
+def Msg.wf : Msg → Prop
+  | .ping h => h < 2 ^ 64
+  | .pong h => h < 2 ^ 64
+  | .verack _ => True
+  | .addrReq => True
+  | .addr l => l.length ≤ MAX_ADDR_NODE_CNT ∧ ∀ a ∈ l, a.wf
+  | .headersReq n s e => n < 2 ^ 8 ∧ s.length = 32 ∧ e.length = 32
+  | .blocksReq n s e => n < 2 ^ 8 ∧ s.length = 32 ∧ e.length = 32
+  | .inv ty hs => ty < 2 ^ 8 ∧ hs.length ≤ MAX_INV_BLK_CNT ∧ ∀ h ∈ hs, h.length = 32
+  | .dataReq ty h => ty < 2 ^ 8 ∧ h.length = 32
+  | .notFound h => h.length = 32
+  | .findNode id => id.length = 20
+  | .findNodeResp id _ _ closer => id.length = 20 ∧ closer.length < 2 ^ 32 ∧ ∀ p ∈ closer, p.1.length = 20
+  | .version p => p.wf
+  | .members l => l.length < 2 ^ 32
+  | .membersReqSeed f t => f.length = 20 ∧ t.length = 20
+  | .headersEmpty => True
+  | .unknown c _ => c ∉ knownCmds ∧ c.length ≤ 12 ∧ c.getLast? ≠ some 0   -- what survives `TrimRight` of the 12-byte field
+  | .opaque _ => False
+
+def Msg.isOpaque : Msg → Bool
+  | .opaque _ => true
+  | _ => false
+
 /-! ## Decoders (`Deserialization`) -/
 
 def padTo (k : Nat) (b : Bytes) : Bytes := b.take k ++ List.replicate (k - b.length) 0
@@ -251,7 +286,9 @@ def decPeerAddr : Dec PeerAddr := do
   let id ← uN 8
   pure ⟨time, services, padTo 16 ip.1, port, cport, pseudoPeerId id⟩
 
-/-- `Addr.Deserialization`.  `.sound` = with `fixes/C24-addr-count.patch` (count checked against the unread length). -/
+/-- `Addr.Deserialization`.  `.asShipped`: the tree as it is; `.sound` = with `fixes/C24-addr-count.patch`:
+`if count > source.Len() { return io.ErrUnexpectedEOF }` before the loop (an entry takes 44 bytes, so such a count can
+never be satisfied; in particular `int(count)` is then non-negative). -/
 def decAddr (v : Variant) : Dec Msg := do
   let count ← uN 8
   let rem ← remaining
@@ -441,6 +478,10 @@ def readMessage (v : Variant) (magic : Nat) (H : Bytes → Bytes) (stream : Byte
 def writeMessage (magic : Nat) (H : Bytes → Bytes) (m : Msg) : Bytes :=
   let p := encode m
   leN 4 magic ++ padTo 12 m.cmd ++ leN 4 p.length ++ padTo 4 (H p) ++ p
+
+/-- a message `WriteMessage` can frame so that `ReadMessage` accepts it -/
+def Framable (H : Bytes → Bytes) (magic : Nat) (m : Msg) : Prop :=
+  m.wf ∧ magic < 2 ^ 32 ∧ (encode m).length ≤ MAX_PAYLOAD_LEN ∧ (∀ b, (H b).length = 4)
 
 /-- the receive loop of `link.Rx`: read messages until the first error; number of messages delivered, or `none` on panic.
 `fuel` only bounds the recursion of the model (each message consumes ≥ 24 bytes, see `Props/C24`). -/
